@@ -7,5 +7,6 @@ import Dippy.Props.C01
 #print axioms Dippy.C01.string_level
 #print axioms Dippy.C01.out_of_fuel_never_allows
 #print axioms Dippy.C01.no_hidden_execution_deep
+#print axioms Dippy.C01.scan_rescans_quoted_body
 #print axioms Dippy.C01.kinds_accounted
 #print axioms Dippy.C01.dispatched_kinds
